@@ -147,9 +147,10 @@ func (e *evaluator) nextMainRecord() (string, bool) {
 					data, ok := e.fsys[name]
 					if !ok {
 						if e.inGetline {
-							// POSIX: getline returns -1 on error; whether the run then
-							// continues with the next operand is not modelled
-							panic(unsupported{"missing operand file reached by getline"})
+							// getline returns -1: no file was entered, so FILENAME, FNR
+							// and NR stay as they are; the operand is used up
+							e.getlineFailed = true
+							return "", false
 						}
 						panic(rtError{"file not found: " + name})
 					}
@@ -211,9 +212,13 @@ func (e *evaluator) getline(x *ast.GetlineExpr) Value {
 		rec = s
 	} else {
 		e.inGetline = true
+		e.getlineFailed = false
 		s, ok := e.nextMainRecord()
 		e.inGetline = false
 		if !ok {
+			if e.getlineFailed {
+				return num(-1)
+			}
 			return num(0)
 		}
 		rec = s
